@@ -625,3 +625,46 @@ def run_lazy_values_cached(seed=0):
             except Exception as e:
                 problems.append({'value': name, 'msg': f'a field returning a {name} object behind CacheToRam(size={size}) raised {exc_name(e)}: {str(e)[:100]}'})
     return calls, problems
+
+
+def run_option_variants_shared_disk(seed=0):
+    """pipeline variants that differ in ONE option of a dataset-wide layer (keep / drop of the same ids, another id list, another grouping
+    field) sharing one disk cache of `ids` and of a grouped field: every variant reads its own values (C04 across pipelines)"""
+    rng = random.Random(seed)
+    scratch = tempfile.mkdtemp(prefix='cv-optdisk-', dir=ensure_scratch())
+    problems, calls = [], 0
+    try:
+        ids = [f'i{k}' for k in range(6)]
+        L = rng.sample(ids, 3)
+        src = {'k': 'source', 'cls': 'OV', 'ids': ids, 'params': {}, 'cargs': {}, 'defaults': {},
+               'fields': {'x': {'args': ['i'], 'f': 'OV.x'}, 'kk': {'args': ['i'], 'f': 'OV.kk', 'table': [[[i], 'gh'[n % 2]] for n, i in enumerate(ids)]},
+                          'k2': {'args': ['i'], 'f': 'OV.k2', 'table': [[[i], 'gh'[n // 3]] for n, i in enumerate(ids)]}}}
+        variants = {'keep': [{'k': 'keep', 'ids': L}], 'drop': [{'k': 'drop', 'ids': L}], 'keep-other': [{'k': 'keep', 'ids': sorted(set(ids) - set(L))[:2]}],
+                    'keep-group': [{'k': 'keep', 'ids': L}, {'k': 'groupby', 'by': 'kk'}], 'drop-group': [{'k': 'drop', 'ids': L}, {'k': 'groupby', 'by': 'kk'}],
+                    'keep-group2': [{'k': 'keep', 'ids': L}, {'k': 'groupby', 'by': 'k2'}]}
+        order = list(variants)
+        rng.shuffle(order)
+        root = tempfile.mkdtemp(dir=scratch)
+        for name in order:
+            world = SymWorld()
+            plain = Builder(world, roots=[root]).layer({'k': 'chain', 'flavour': 'chain', 'layers': [src] + variants[name]})
+            cached = Builder(world, roots=[root]).layer({'k': 'chain', 'flavour': 'chain',
+                                                        'layers': [src] + variants[name] + [{'k': 'disk', 'names': ['ids', 'x'], 'root': 0}]})
+            want_ids = tuple(plain.ids)
+            got_ids = tuple(cached.ids)
+            calls += 1
+            if got_ids != want_ids:
+                problems.append({'variant': name, 'order': order, 'msg': f'variants {order} (filled in this order) sharing one disk cache: `ids` of {name} ({variants[name]}) is '
+                                                                        f'{got_ids}, without caches {want_ids}'})
+                break
+            for key in want_ids[:2]:
+                a, b_ = canon(val_to_json(cached.x(key), world)), canon(val_to_json(plain.x(key), world))
+                calls += 1
+                if a != b_:
+                    problems.append({'variant': name, 'order': order, 'msg': f'variants {order} sharing one disk cache: x({key!r}) of {name} is {a[:100]}, without caches {b_[:100]}'})
+                    break
+    except Exception as e:
+        problems.append({'msg': 'option variants scenario raised ' + exc_name(e) + ': ' + str(e)[:120]})
+    finally:
+        shutil.rmtree(scratch, ignore_errors=True)
+    return calls, problems
